@@ -96,7 +96,9 @@ Definition step_ok (d : list Z) (pos0 : Z) (p : parser) (r : option (unit_ * par
               (perr p' = Some (lpos (pz p')) \/
                (* the end-of-input report: nothing is recorded, the parser is not in key position *)
                (perr p' = perr p /\ top (pst p') <> Some S_ObjectKey /\
-                (prd p <> 0 \/ lpos (pz p') = len d)))
+                (prd p <> 0 \/ lpos (pz p') = len d))) /\
+              (* an error call that does not move the cursor can only set needComma *)
+              (lpos (pz p') = pos0 -> pneed p' = pneed p \/ pneed p' = true)
     | Some (lo, b) => fst u <> G_Error /\ b <> [] /\ pos0 <= lo /\ b = slice d lo (lo + len b) /\
                       lo + len b <= lpos (pz p') /\ perr p' = perr p /\ lstart (pz p') = lpos (pz p') /\
                       (completes_value (fst u) (pst p') -> pneed p' = true)
@@ -110,15 +112,18 @@ Qed.
 Lemma fail_ok d pos0 p z a tok s st need :
   cur3 z a tok s -> d = a ++ tok ++ s -> stack_ok st -> pos0 <= lpos z ->
   st_rel (pst p) G_Error st ->
+  need = pneed p \/ need = true \/ pos0 < len a ->
   step_ok d pos0 p (fail_at p z st need).
 Proof.
-  intros Hc Hd Hst Hpos Hrel. unfold step_ok, fail_at.
-  eexists _, _. split; [reflexivity|]. cbn [pz pst perr prd fst snd].
+  intros Hc Hd Hst Hpos Hrel Hnm. unfold step_ok, fail_at.
+  eexists _, _. split; [reflexivity|]. cbn [pz pst perr prd pneed fst snd].
   split.
   { exists a, tok, s. cbn [pz pst perr]. split; [exact Hd|]. split; [exact Hc|]. split; [exact Hst|].
     unfold err_in_range. rewrite (cur3_lpos _ _ _ _ Hc). subst d. apply len_app3_le. }
   split; [reflexivity|]. split; [exact Hpos|]. split; [exact Hrel|].
-  split; [reflexivity|]. left. reflexivity.
+  split; [reflexivity|]. split; [left; reflexivity|].
+  intros Hq. rewrite (cur3_lpos _ _ _ _ Hc) in Hq. pose proof (len_nonneg tok).
+  destruct Hnm as [H1|[H1|H1]]; [left; exact H1|right; exact H1|lia].
 Qed.
 
 Lemma emit_ok d pos0 p g z a tok s st need :
@@ -153,12 +158,14 @@ Proof. destruct s as [|x t]; cbn [hd0]; intros H Hc; [congruence|]. exists t. co
 (* --- the ObjectKey block ---------------------------------------------------------------------- *)
 Lemma next_key_ok d pos0 p z2 a s2 need st0 :
   cur3 z2 a [] s2 -> d = a ++ s2 -> pst p = S_ObjectKey :: st0 -> stack_ok (pst p) -> pos0 <= len a ->
-  err_in_range d (perr p) ->
+  err_in_range d (perr p) -> need = pneed p \/ pos0 < len a ->
   step_ok d pos0 p (next_key p z2 (hd0 s2) need).
 Proof.
-  intros H2 Hd Hst Hok Hpos Herr. unfold next_key.
+  intros H2 Hd Hst Hok Hpos Herr Hnd.
+  assert (Hnm : need = pneed p \/ need = true \/ pos0 < len a) by (destruct Hnd; auto).
+  unfold next_key.
   destruct (negb (hd0 s2 =? 34)) eqn:E34.
-  { eapply fail_ok; [exact H2|rewrite Hd; reflexivity|exact Hok| |apply sr_err].
+  { eapply fail_ok; [exact H2|rewrite Hd; reflexivity|exact Hok| |apply sr_err|exact Hnm].
     rewrite (cur3_lpos _ _ _ _ H2). rewrite len_nil. lia. }
   apply negb_false_iff in E34. apply Z.eqb_eq in E34.
   destruct (hd0_cons_inv s2 34 E34 ltac:(lia)) as (t & ->).
@@ -167,7 +174,7 @@ Proof.
   rewrite Hcs. cbn [option_bind fst snd].
   pose proof (str_split_app t (rev [34])) as Happ. fold r in Happ.
   destruct (fst r).
-  2:{ cbn [negb]. eapply fail_ok; [exact H3| |exact Hok| |apply sr_err].
+  2:{ cbn [negb]. eapply fail_ok; [exact H3| |exact Hok| |apply sr_err|exact Hnm].
       - rewrite Hd. cbn [app]. rewrite Happ. reflexivity.
       - rewrite (cur3_lpos _ _ _ _ H3). pose proof (len_nonneg (34 :: fst (snd r))). lia. }
   cbn [negb].
@@ -179,7 +186,7 @@ Proof.
     unfold w, s4. rewrite takew_dropw. reflexivity. }
   rewrite (cur3_pk0 _ _ _ _ H4). cbn [option_bind].
   destruct (negb (hd0 s4 =? 58)) eqn:E58.
-  { eapply fail_ok; [exact H4|exact Hd4|exact Hok| |apply sr_err].
+  { eapply fail_ok; [exact H4|exact Hd4|exact Hok| |apply sr_err|exact Hnm].
     rewrite (cur3_lpos _ _ _ _ H4). pose proof (len_nonneg ((34 :: x) ++ w)). lia. }
   apply negb_false_iff in E58. apply Z.eqb_eq in E58.
   destruct (hd0_cons_inv s4 58 E58 ltac:(lia)) as (s5 & Hs5).
@@ -240,10 +247,12 @@ Qed.
 
 Lemma next_value_ok d pos0 p z2 a s2 need state :
   cur3 z2 a [] s2 -> d = a ++ s2 -> top (pst p) = Some state -> state <> S_ObjectKey ->
-  stack_ok (pst p) -> pos0 <= len a -> err_in_range d (perr p) ->
+  stack_ok (pst p) -> pos0 <= len a -> err_in_range d (perr p) -> need = pneed p \/ pos0 < len a ->
   step_ok d pos0 p (next_value p z2 (hd0 s2) need state).
 Proof.
-  intros H2 Hd Htop Hstate Hok Hpos Herr. unfold next_value.
+  intros H2 Hd Htop Hstate Hok Hpos Herr Hnd.
+  assert (Hnm : need = pneed p \/ need = true \/ pos0 < len a) by (destruct Hnd; auto).
+  unfold next_value.
   (* string attempt *)
   assert (Hstr : exists ok z3 tok3 s3,
             (if hd0 s2 =? 34 then consume_string z2 else Some (false, z2)) = Some (ok, z3) /\
@@ -281,14 +290,17 @@ Proof.
   assert (Hp4 : pos0 <= lpos z4).
   { rewrite (cur3_lpos _ _ _ _ H4). pose proof (len_nonneg tok3). lia. }
   destruct ((hd0 s3 =? 0) && negb (r_err p z4)) eqn:Enul.
-  { eapply fail_ok; [exact H4|exact Hd3|exact Hok|exact Hp4|apply sr_err]. }
+  { eapply fail_ok; [exact H4|exact Hd3|exact Hok|exact Hp4|apply sr_err|exact Hnm]. }
   destruct (hd0 s3 =? 0) eqn:E0.
-  2:{ eapply fail_ok; [exact H4|exact Hd3|exact Hok|exact Hp4|apply sr_err]. }
+  2:{ eapply fail_ok; [exact H4|exact Hd3|exact Hok|exact Hp4|apply sr_err|exact Hnm]. }
   (* the end-of-input report *)
   unfold step_ok. eexists _, _. split; [reflexivity|]. cbn [pz pst perr prd fst snd].
   split. { exists a, tok3, s3. cbn [pz pst perr]. auto. }
   split; [reflexivity|]. split; [exact Hp4|]. split; [apply sr_err|].
-  split; [reflexivity|]. right. split; [reflexivity|]. split; [rewrite Htop; congruence|].
+  split; [reflexivity|]. split.
+  2:{ cbn [pneed]. intros Hq. rewrite (cur3_lpos _ _ _ _ H4) in Hq. pose proof (len_nonneg tok3).
+      destruct Hnd as [H1|H1]; [left; exact H1|lia]. }
+  right. split; [reflexivity|]. split; [rewrite Htop; congruence|].
   cbn [andb] in Enul. apply negb_false_iff in Enul. unfold r_err in Enul.
   destruct (negb (prd p =? 0)) eqn:Ep; [left; lia|right].
   cbn [orb] in Enul. rewrite (cur3_at_end _ _ _ _ H4) in Enul.
@@ -299,22 +311,26 @@ Qed.
 (* --- after the comma block ---------------------------------------------------------------------- *)
 Lemma next_body_ok d pos0 p z1 a tok1 s2 need state :
   cur3 z1 a tok1 s2 -> d = a ++ tok1 ++ s2 -> top (pst p) = Some state -> stack_ok (pst p) ->
-  pos0 <= len a + len tok1 -> err_in_range d (perr p) ->
+  pos0 <= len a + len tok1 -> err_in_range d (perr p) -> need = pneed p \/ pos0 < len a + len tok1 ->
   step_ok d pos0 p (next_body p z1 (hd0 s2) need state).
 Proof.
-  intros H1 Hd Htop Hok Hpos Herr. unfold next_body.
+  intros H1 Hd Htop Hok Hpos Herr Hnd.
+  assert (Hnd2 : need = pneed p \/ pos0 < len (a ++ tok1)) by (rewrite len_app; exact Hnd).
+  assert (Hnm : forall nd', nd' = need \/ nd' = true -> nd' = pneed p \/ nd' = true \/ pos0 < len (a ++ tok1)).
+  { intros nd' [->| ->]; [destruct Hnd2; auto|auto]. }
+  unfold next_body.
   pose proof (cur3_skip _ _ _ _ H1) as H2.
   assert (Hd2 : d = (a ++ tok1) ++ [] ++ s2) by (rewrite Hd, <- app_assoc; reflexivity).
   assert (Hp2 : pos0 <= lpos (skip z1)).
   { rewrite (cur3_lpos _ _ _ _ H2). rewrite len_app, len_nil. lia. }
   assert (Hpa : pos0 <= len (a ++ tok1)) by (rewrite len_app; lia).
   destruct (need && negb (hd0 s2 =? 125) && negb (hd0 s2 =? 93) && negb (hd0 s2 =? 0)).
-  { eapply fail_ok; [exact H2|exact Hd2|exact Hok|exact Hp2|apply sr_err]. }
+  { eapply fail_ok; [exact H2|exact Hd2|exact Hok|exact Hp2|apply sr_err|apply Hnm; auto]. }
   (* the four brackets: the cursor moves over one byte *)
   assert (Hbr : forall c g st', hd0 s2 = c -> c <> 0 -> g <> G_Error -> stack_ok st' -> st_rel (pst p) g st' ->
              forall nd, (completes_value g st' -> nd = true) ->
                         step_ok d pos0 p (emit p g (mv (skip z1) 1) st' nd)).
-  { intros c g st' Hc Hc0 Hg Hst' Hrel nd Hnd. destruct (hd0_cons_inv s2 c Hc Hc0) as (t & Hs2).
+  { intros c g st' Hc Hc0 Hg Hst' Hrel nd Hcv. destruct (hd0_cons_inv s2 c Hc Hc0) as (t & Hs2).
     rewrite Hs2 in H2. pose proof (cur3_mv1 _ _ _ _ _ H2) as H3.
     apply (emit_ok d pos0 p g _ (a ++ tok1) ([] ++ [c]) t); auto.
     - discriminate.
@@ -328,7 +344,7 @@ Proof.
   destruct (hd0 s2 =? 125) eqn:E2.
   { apply Z.eqb_eq in E2.
     destruct (negb (state =? S_ObjectKey)) eqn:Es.
-    { eapply fail_ok; [exact H2|exact Hd2|exact Hok|exact Hp2|apply sr_err]. }
+    { eapply fail_ok; [exact H2|exact Hd2|exact Hok|exact Hp2|apply sr_err|apply Hnm; auto]. }
     apply negb_false_iff in Es. apply Z.eqb_eq in Es. subst state.
     destruct (pop_fix_ok _ _ Hok Htop ltac:(discriminate)) as (t & Hst & Hokt & Hpop).
     rewrite Hpop. cbn [option_bind].
@@ -343,7 +359,7 @@ Proof.
   destruct (hd0 s2 =? 93) eqn:E4.
   { apply Z.eqb_eq in E4.
     destruct (negb (state =? S_Array)) eqn:Es.
-    { eapply fail_ok; [exact H2|exact Hd2|exact Hok|exact Hp2|apply sr_err]. }
+    { eapply fail_ok; [exact H2|exact Hd2|exact Hok|exact Hp2|apply sr_err|apply Hnm; auto]. }
     apply negb_false_iff in Es. apply Z.eqb_eq in Es. subst state.
     destruct (pop_fix_ok _ _ Hok Htop ltac:(discriminate)) as (t & Hst & Hokt & Hpop).
     rewrite Hpop. cbn [option_bind].
@@ -371,7 +387,7 @@ Proof.
   unfold next_comma.
   destruct (hd0 s0 =? 44) eqn:E44.
   - destruct (negb (state =? S_Array) && negb (state =? S_ObjectKey)); cbn [option_bind].
-    + eapply fail_ok; [exact H0| |exact Hok| |apply sr_err].
+    + eapply fail_ok; [exact H0| |exact Hok| |apply sr_err|left; reflexivity].
       * rewrite Hd, Hs. rewrite <- !app_assoc. reflexivity.
       * rewrite (cur3_lpos _ _ _ _ H0), len_app. lia.
     + apply Z.eqb_eq in E44. destruct (hd0_cons_inv s0 44 E44 ltac:(lia)) as (s1 & Hs1).
@@ -382,6 +398,7 @@ Proof.
       * rewrite Hd, Hs, Hs1. rewrite <- !app_assoc. cbn [app]. do 4 f_equal.
         rewrite takew_dropw. reflexivity.
       * rewrite !len_app. pose proof (len_nonneg (takew is_ws s1)). change (len [44]) with 1. lia.
+      * right. rewrite !len_app. pose proof (len_nonneg (takew is_ws s1)). change (len [44]) with 1. lia.
   - cbn [option_bind]. apply (next_body_ok d _ p z0 a _ _ (pneed p) state H0); auto.
     + rewrite Hd, Hs. rewrite <- !app_assoc. reflexivity.
     + rewrite len_app. lia.
